@@ -55,7 +55,7 @@ class IsoInSpec(Spec):
         self.mps = cfg["mps"]
         self.nmax = 3 * self.mps
         self.distract = bool(cfg.get("distract"))
-        self.time_budget = 240 if tier == "quick" else 850      # wall-clock safety net only; bounds are set by depth / fixed point
+        self.time_budget = 240 if tier == "quick" else 700      # wall-clock safety net only; bounds are set by depth / fixed point
         if cfg.get("depth"): self.max_depth = cfg["depth"]
         self.host = Host(gap=cfg["gap"], pace=cfg.get("pace", 1), ready_period=cfg["ready"])
         self.frames = (0x2A5, 0x15A)[:cfg.get("frames", 1)]
